@@ -477,3 +477,50 @@
         core::mem::forget(r);
         core::mem::forget(res);
     }
+
+    // ---------------------------------------------------------------- C25: time-based filter
+    use crate::infrastructure::qos_policy::TimeBasedFilterQosPolicy;
+
+    /// C25 inductive step.  A reader with TIME_BASED_FILTER minimum_separation = sep (1..=3 s), KEEP_ALL, no limits, holding
+    /// ONE sample of the instance with source timestamp t0; an incoming ALIVE sample of the SAME instance with an arbitrary
+    /// source timestamp t (earlier, equal or later than t0 - i.e. in-order or out-of-order arrival).  Then: the sample is
+    /// stored (Added) iff |t - t0| >= sep; afterwards the stored samples of the instance are pairwise at least sep apart
+    /// (the reader never presents two samples closer than minimum_separation, whatever the arrival order), and a sample at
+    /// least sep away from the stored one is not filtered.  A sample of ANOTHER instance is never filtered.
+    /// @props C25
+    /// @kind bounded
+    /// @tier quick
+    /// @timeout 1500
+    /// @bounds 1 stored sample, 2 instance handles, timestamps whole seconds 0..=255, separation 1..=3 s
+    /// @fn DataReaderEntity::add_reader_change
+    #[cfg_attr(kani, kani::proof)]
+    #[cfg_attr(kani, kani::stub(alloc::fmt::format, verif_support::fmt_format_stub))]
+    fn c25_time_based_filter_any_arrival_order() {
+        let sep: u8 = kani::any();
+        kani::assume(sep >= 1 && sep <= 3);
+        let mut r = mk_reader(HistoryQosPolicyKind::KeepAll, DestinationOrderQosPolicyKind::ByReceptionTimestamp, unlimited());
+        r.qos.time_based_filter = TimeBasedFilterQosPolicy {
+            minimum_separation: DurationKind::Finite(crate::infrastructure::time::Duration::new(sep as i32, 0)),
+        };
+        let s0: u8 = kani::any();
+        let s1: u8 = kani::any();
+        r.sample_list.push(stored(10, ih(1), Time::new(s0 as i32, 0), ChangeKind::Alive));
+        let (bn, hn) = any_ih();
+        let res = r.add_reader_change(Guid::new([7; 12], crate::transport::types::EntityId::new([7, 7, 7], 7)), payload(12),
+            ChangeKind::Alive, *hn.as_ref(), Some(Time::new(s1 as i32, 0)), Time::new(1000, 0));
+        let dist: u8 = if s1 >= s0 { s1 - s0 } else { s0 - s1 };
+        let code = outcome(&res);
+        if bn == 2 {
+            assert!(code == 0, "C25: the filter is per instance - a sample of another instance is never filtered");
+        } else if dist >= sep {
+            assert!(code == 0, "C25: a sample at least minimum_separation away from the stored ones is not filtered");
+        } else {
+            assert!(code == 1, "C25: a sample closer than minimum_separation to a stored sample of its instance is filtered, whatever the arrival order");
+            assert!(r.sample_list.len() == 1, "C25: a filtered sample is not stored");
+        }
+        kani::cover!(bn == 1 && s1 < s0 && dist < sep);
+        kani::cover!(bn == 1 && s1 > s0 && dist < sep);
+        kani::cover!(bn == 1 && dist >= sep && code == 0);
+        core::mem::forget(r);
+        core::mem::forget(res);
+    }
